@@ -17,7 +17,7 @@ func checkC01(p *Program, r *Result) {
 		"so a symmetric mistake in writer and parser is still caught; the lexer's inline chunk-header decode has the specified widths; " +
 		"(C01.b) the size reserved in the writer's reusable message buffer covers what is written into it; " +
 		"(C01.c) values handed to the caller do not alias reusable read buffers: byte-slice fields of Parse* results are fresh copies (documented exceptions: ParseChunk, ParseMessage/PopulateFrom(copy=false)), " +
-		"both iterators copy message data (PopulateFrom with constant true on the message they return), and a chunk slot's buffer never aliases the iterator's read buffer; " +
+		"both iterators copy message data (PopulateFrom with constant true on the message they return), a chunk slot's buffer never aliases the iterator's read buffer, and the token bytes Lexer.Next returns are a slice of the caller's buffer or freshly allocated, never a lexer-owned reusable buffer; " +
 		"(C01.d) each yielded message is bound to the channel looked up by its own ChannelID and the schema looked up by that channel's SchemaID, a missing schema being an error iff SchemaID != 0."
 	r.NotDecided = []string{"equality of values for all inputs and configurations", "the lexer's de-chunking state machine", "interleavings and flag combinations"}
 	r.rule("C01.a", "encoder and decoder layouts equal the spec table", 45)
@@ -35,6 +35,7 @@ func checkC01(p *Program, r *Result) {
 	checkParseAliasing(p, r, "C01.c")
 	checkPopulateCopies(p, r, "C01.c")
 	checkSlotOwnership(p, r, "C01.c")
+	checkLexerTokenOwnership(p, r, "C01.c")
 	checkBindingKeys(p, r, "C01.d")
 	checkDecoderLimits(p, r, "C01.z")
 }
@@ -319,3 +320,56 @@ func nilSchemaGuard(fn *ssa.Function, ret *ssa.Return, schema, channel ssa.Value
 }
 
 var _ = types.Typ
+
+// checkLexerTokenOwnership: the bytes Lexer.Next hands out are a slice of the caller's buffer p or freshly allocated
+// for this call - never a buffer the lexer keeps and reuses (callers that pass nil keep the slices, and ParseMessage
+// results alias them).
+func checkLexerTokenOwnership(p *Program, r *Result, rule string) {
+	fn := p.lookupFunc(pkgMcap, "Lexer.Next")
+	if fn == nil {
+		r.undecided(rule, "mcap.Lexer.Next", "anchor", "", "not found")
+		return
+	}
+	oc := &originCtx{p: p}
+	all := map[string]bool{}
+	bad := map[string]string{}
+	n := 0
+	for _, in := range instrsOf(fn) {
+		ret, ok := in.(*ssa.Return)
+		if !ok || len(ret.Results) != 3 || isNilConst(ret.Results[1]) {
+			continue
+		}
+		n++
+		for _, o := range oc.origins(ret.Results[1]) {
+			all[o] = true
+			if o == "fresh" || strings.HasPrefix(o, "param:") {
+				continue
+			}
+			if _, had := bad[o]; !had {
+				bad[o] = p.pos(ret.Pos())
+			}
+		}
+	}
+	var os []string
+	for o := range all {
+		os = append(os, o)
+	}
+	sortStrings(os)
+	if n == 0 {
+		r.undecided(rule, funcName(fn), "returned token bytes", p.pos(fn.Pos()), "no return with a non-nil byte slice found")
+		return
+	}
+	if len(bad) == 0 {
+		r.held(rule, funcName(fn), "returned token bytes", p.pos(fn.Pos()), "origin: "+strings.Join(os, ", "))
+		return
+	}
+	var bs []string
+	for o := range bad {
+		bs = append(bs, o)
+	}
+	sortStrings(bs)
+	for _, o := range bs {
+		r.violated(rule, funcName(fn), "returned token bytes <- "+o, bad[o],
+			"the byte slice handed to the caller comes from "+o+", which the lexer keeps and overwrites on a later call; callers that pass nil retain the slices (and ParseMessage results alias them), so earlier records change under them")
+	}
+}
